@@ -8,6 +8,8 @@ import (
 	"time"
 
 	"aaverif/internal/plan"
+	"aaverif/internal/ref"
+	"aaverif/internal/rng"
 )
 
 // replay re-executes the calls recorded in a replay file against a fresh
@@ -88,6 +90,24 @@ func selftest(e *Env) {
 		fatalInconclusive("%v", err)
 	}
 	fmt.Println("R-SEED with CPython NFKD reproduces the published Japanese vector")
+	// the harness's PBKDF2 loop against hashlib on random keys and salts of many lengths
+	r := rng.New(e.Seed, "selftest-pbkdf2")
+	var reqs []string
+	var mine []string
+	for k := 0; k < 64; k++ {
+		pw, salt := r.Bytes(r.Intn(300)), r.Bytes(r.Intn(300))
+		if k < 8 {
+			pw = r.Bytes([]int{0, 1, 127, 128, 129, 255, 256, 1000}[k])
+		}
+		reqs = append(reqs, "K "+hexOrDash(string(pw))+" "+hexOrDash("mnemonic"+string(salt)))
+		mine = append(mine, hx(ref.Seed(pw, salt)))
+	}
+	for i, rep := range e.Py().batch(reqs) {
+		if rep != mine[i] {
+			fatalInconclusive("reference PBKDF2 disagrees with hashlib on case %d", i)
+		}
+	}
+	fmt.Println("reference PBKDF2 agrees with CPython hashlib on 64 random key/salt pairs")
 	e.BuildDrv(false)
 	e.BuildDrv(true)
 	fmt.Println("drv builds (plain and -race) from", e.Repo)
